@@ -319,6 +319,13 @@ func (x *Exec) runBlock(st *State, fr *Frame, b *ssa.BasicBlock, i int) {
 				fr2 := fr.copy()
 				st.assume(c)
 				st2.assume(tNot(c))
+				// leaving a range loop: the index equals the length (implied by the
+				// bounds; stated as an equality to help E-matching)
+				if lp := x.loopInfo(fr.fn).byHeader[b]; lp != nil && lp.rangeIdx != nil {
+					if bo, ok := in.Cond.(*ssa.BinOp); ok && bo.Op == token.LSS {
+						st2.assume(tEq(x.tv(st2, fr2, bo.X).E, x.tv(st2, fr2, bo.Y).E))
+					}
+				}
 				x.enter(st, fr, b, b.Succs[0])
 				x.enter(st2, fr2, b, b.Succs[1])
 			}
